@@ -397,6 +397,22 @@ def callee_info(repo, f):
             else:
                 offset = 1
         return params, offset, g.node
+    # one-expression properties of the function's own class: self.<name> reads as that expression
+    props = {}
+    if f.cls is not None:
+        for st in f.cls.body:
+            if isinstance(st, ast.FunctionDef) and any(isinstance(d, ast.Name) and d.id == 'property' for d in st.decorator_list) \
+                    and len(st.decorator_list) == 1 and st.name != f.name:
+                body = [x for x in st.body if not (isinstance(x, ast.Expr) and isinstance(x.value, ast.Constant))]
+                if len(body) == 1 and isinstance(body[0], ast.Return) and body[0].value is not None and len(st.args.args) == 1:
+                    v = body[0].value
+                    names = {x.id for x in ast.walk(v) if isinstance(x, ast.Name)}
+                    if names <= {'self', 'np', 'None', 'True', 'False', 'int', 'float', 'len'} and not any(
+                            isinstance(x, ast.Attribute) and isinstance(x.value, ast.Name) and x.value.id == 'self' and x.attr == st.name for x in ast.walk(v)):
+                        # setters make it more than a computed attribute
+                        if not any(isinstance(o, ast.FunctionDef) and o.name == st.name and o is not st for o in f.cls.body):
+                            props[st.name] = v
+    info.props = props
     return info
 
 
